@@ -14,7 +14,7 @@ func init() {
 		ID: "C19",
 		Decides: "(R19.1) the center's list of temp databases and its removed list are written only with the center lock held exclusively (or in helpers called only with it held, or the constructor) and read under the lock or through the locked snapshot helpers; " +
 			"(R19.2) every leveldb key builder a reader uses is used by the block writer (and vice versa) — a reader cannot look where nothing is written; every key builder carries each of its parameters in full under its own prefix constant; (R19.3) every read of the center falls back to the same read of the permanent database with the caller's own argument — for the by-block-height suffrage proof the requested height, lowered to lowest-temp-minus-one only when it lies above it; " +
-			"(R19.4) a temp database is published to readers only after its own merge marker write succeeded and only for the height following the newest one; it leaves the list only after the permanent merge succeeded; (R19.5) Center.state consults a temp only if it is newer than the newest holder of the key found so far, replaces the remembered height only by the height of a newer temp that holds the key, and never resets it (closed or empty temps leave it unchanged).; (R19.j) jobs handed to a worker read only captured variables that the submitter does not assign again (no job works on a later batch/slot than the one it was created for); (R19.6) the temps answer a suffrage proof only for the asked suffrage height; (R19.7) the by-block-height read works on one snapshot of the temp list and (R19.8) a block writer's state cache is not shared across heights — R19.8 violated today, known finding; (R19.9) a permanent database reads a state from storage and fills its state cache under the lock its merge holds; (R19.10) the last height answered with the last suffrage proof is the newest database's",
+			"(R19.4) a temp database is published to readers only after its own merge marker write succeeded and only for the height following the newest one; it leaves the list only after the permanent merge succeeded; (R19.5) Center.state consults a temp only if it is newer than the newest holder of the key found so far, replaces the remembered height only by the height of a newer temp that holds the key, and never resets it (closed or empty temps leave it unchanged).; (R19.j) jobs handed to a worker read only captured variables that the submitter does not assign again (no job works on a later batch/slot than the one it was created for); (R19.6) the temps answer a suffrage proof only for the asked suffrage height; (R19.7) the by-block-height read works on one snapshot of the temp list and (R19.8) a block writer's state cache is not shared across heights — R19.8 violated today, known finding; (R19.9) a permanent database reads a state from storage and fills its state cache under the lock its merge holds; (R19.10) the last height answered with the last suffrage proof is the newest database's; (R19.c) the LevelDB permanent merge copies every record (the copy callback continues only after the record went into a batch, a full batch is replaced only after it was handed to a writer) and writes the block map in a commit batch after all others; every live temp of the snapshot not above the asked block height is asked for its suffrage proof",
 		NotDecided: "agreement with a model over all histories of writes/merges/removals (needs execution); monotonicity of concurrent reads during merges beyond the snapshot/lock discipline.",
 		Run:        runC19,
 	})
@@ -52,6 +52,18 @@ func runC19(c *Ctx) {
 	stateCacheOwnershipRule(c, "R19.8")
 	permStateCacheLockRule(c, "R19.9")
 	lastProofHeightRule(c, "R19.10")
+	c.Rule("R19.c", "MustPass")
+	permMergeCopyRules(c)
+	permCommitBatchRule(c)
+	// every live temp of the snapshot that is not above the asked height is asked for its proof (the
+	// newest of them that has one answers): skipping the temp of exactly the asked height answers the
+	// previous suffrage for a block that changed it
+	c.Rule("R19.3", "MustPass")
+	if fn := c.Need("isaac/database.(*Center).SuffrageProofByBlockHeight"); fn != nil && len(c.Loops(fn, "(ι < len(db.activeTemps()))")) > 0 {
+		th := "db.activeTemps()[ι].Height()"
+		c.ForEach(fn, "every live temp not above the asked height is asked for its proof", "(ι < len(db.activeTemps()))", 1,
+			GCmp(th, "<", "base.GenesisHeight"), GCmp(th, "<", "0"), GCmp(th, ">", "height"), GCalled("db.activeTemps()[ι].SuffrageProof()"))
+	}
 	c.Rule("R19.j", "AsyncCapture")
 	c.AsyncCaptures(c.Need("isaac/database.(*Center).dig"), "*.NewJob", 1)
 	// R19.1 --------------------------------------------------------------------------------------
